@@ -27,6 +27,60 @@ func runC13(c *Ctx) {
 	r13_4(c, "R13.4")
 	r13_6(c, "R13.6")
 	r13_7(c, "R13.7")
+	if c.Unix() {
+		r13_8(c, "R13.8")
+	}
+	errDisciplineAll(c, "R13.9", 1, "copy")
+}
+
+// R13.8: a copied device node keeps its device number.
+//
+// copyDevice creates the node with mknod; the number it passes is the source
+// node's Rdev whenever the source is a block or character device (fifos and
+// sockets have none): with a device mode bit set, mknod is unreachable without
+// the number having been read from the source's Stat_t.
+func r13_8(c *Ctx, rule string) {
+	c.R.Rule(rule, "copyDevice: the device number handed to mknod derives from the source's Stat_t.Rdev, and for a block or character device mknod is not reached without it")
+	fn := c.Fn(rule, "copy.copyDevice")
+	if fn == nil {
+		return
+	}
+	var mk ssa.CallInstruction
+	for _, call := range c.P.CallsTo(fn, "copy.mknod", "golang.org/x/sys/unix.Mknod", "syscall.Mknod", "golang.org/x/sys/unix.Mknodat") {
+		mk = call
+	}
+	if mk == nil {
+		c.R.Fail(rule, c.name(fn)+"/mknod", c.P.Pos(fn.Pos()), "copyDevice no longer creates the node with mknod")
+		return
+	}
+	a := mk.Common().Args
+	isRdev := func(v ssa.Value) bool {
+		o, _, _, ok := eng.LoadedFieldRaw(v)
+		return ok && strings.HasSuffix(o, "Stat_t.Rdev")
+	}
+	okArg := c.DerivesFrom(a[len(a)-1], isRdev, 8)
+	c.R.Check(okArg, rule, c.siteName(mk)+"/dev-from-source", c.pos(mk), "mknod(dst, mode, source Rdev)", "the device number handed to mknod is not the source node's Rdev: every copied device node is created as 0:0")
+	// the read of Rdev precedes mknod whenever a device bit is set
+	x := c.explorer(fn)
+	for _, t := range []struct {
+		name string
+		bit  int64
+	}{{"block device", modeDevice}, {"character device", modeCharDev}} {
+		keys := modeBitSetTests(c, fn, x, t.bit)
+		if len(keys) == 0 {
+			// no test at all: the number must be read unconditionally
+			continue
+		}
+		as := map[string]bool{}
+		for _, k := range keys {
+			as[k] = true
+		}
+		isRead := func(in ssa.Instruction) bool {
+			v, ok := in.(ssa.Value)
+			return ok && isRdev(v)
+		}
+		c.ObPrecedes(rule, c.name(fn)+"/rdev-read-for-"+strings.ReplaceAll(t.name, " ", "-"), fn, as, isRead, func(in ssa.Instruction) bool { return in == ssa.Instruction(mk) }, "reading the source's device number", "mknod for a "+t.name)
+	}
 }
 
 func runC14(c *Ctx) {
@@ -128,6 +182,8 @@ func runC15(c *Ctx) {
 	r14_4(c, "R15.3")
 	r15_4(c, "R15.4")
 	r15_5(c, "R15.5")
+	// wildcard sources: what counts as a wildcard (shared with C18)
+	wildcardChars(c, "R15.6", "copy.containsWildcards")
 }
 
 // R15.5: MkdirAll never mistakes something else for the directory it was
